@@ -43,11 +43,10 @@ func (p *ConfigProp[T]) Overwrite(value T) {
 	p.onChange.Fire(value)
 }
 
-// Stages the new value, keeping the old. The change is not committed until CommitStaged is called.
+// Stages the new value, keeping the old. The change is not committed until CommitStaged is called,
+// and subscribers are not told about it until NotifyCommitted is called.
 func (p *ConfigProp[T]) Stage(newValue T) {
 	commit, _ := p.value.Load()
-
-	oldVal := commit.ref().Original()
 
 	// Copy the old Overwritable to keep any command-line overwrites.
 	overwritable := commit.Value()
@@ -55,19 +54,39 @@ func (p *ConfigProp[T]) Stage(newValue T) {
 	commit.Stage(overwritable)
 
 	p.value.Store(commit)
-
-	if p.requiresRestart && (oldVal != newValue) {
-		setRestartNeeded()
-	}
-
-	// Subscribers follow the effective setting: a command-line overwrite still wins over the new value.
-	p.onChange.Fire(overwritable.Get())
 }
 
 func (p *ConfigProp[T]) CommitStaged() {
 	commit, _ := p.value.Load()
 	commit.Commit()
 	p.value.Store(commit)
+}
+
+// Drops a staged value that has not been committed.
+func (p *ConfigProp[T]) DiscardStaged() {
+	commit, _ := p.value.Load()
+	commit.Uncommit()
+	p.value.Store(commit)
+}
+
+// Restores the value that the last CommitStaged replaced.
+func (p *ConfigProp[T]) RollbackCommitted() {
+	commit, _ := p.value.Load()
+	commit.Rollback()
+	p.value.Store(commit)
+}
+
+// Tells the subscribers (and the restart bookkeeping) about the value committed last.
+// Called once the whole update has been verified and saved.
+func (p *ConfigProp[T]) NotifyCommitted() {
+	commit, _ := p.value.Load()
+
+	if previous, ok := commit.Previous(); ok && p.requiresRestart && previous.Original() != commit.ref().Original() {
+		setRestartNeeded()
+	}
+
+	// Subscribers follow the effective setting: a command-line overwrite still wins over the new value.
+	p.onChange.Fire(commit.ref().Get())
 }
 
 func (p *ConfigProp[T]) String() string {
